@@ -15,6 +15,7 @@ VERIF = os.path.dirname(os.path.dirname(os.path.abspath(__file__)))
 
 def main():
     root = sys.argv[1]
+    tag = sys.argv[2] if len(sys.argv) > 2 else ""
     out = os.path.join(VERIF, "seeded")
     os.makedirs(out, exist_ok=True)
     kept, dropped = [], []
@@ -32,7 +33,7 @@ def main():
             except ValueError:
                 continue
             ok = e.get("demo_clean") == "PASS" and e.get("applies") and e.get("demo_mutant") == "FAIL" and str(e.get("tests", "")).startswith("3210 passed")
-            sid = "%s-%s" % (pid, m)
+            sid = "%s-%s%s" % (pid, tag, m)
             if not ok:
                 dropped.append((sid, {k: e.get(k) for k in ("demo_clean", "applies", "demo_mutant", "tests")}))
                 continue
